@@ -455,6 +455,7 @@ def vote_rename(fn, r, stats, key):
     for s in statements(fn):
         d, names = stmt_blind(s, loc)
         for rn in refst.get(d, []):
+            rn = [x.split('\x01')[0] for x in rn]
             if len(rn) == len(names):
                 for a, b in zip(names, rn):
                     if a in new and b in gone:
@@ -482,6 +483,66 @@ def vote_rename(fn, r, stats, key):
             n.name = mapping[n.name]
     if stats is not None:
         stats.append((key, 'renamed %s' % sorted(mapping.items())))
+
+
+def vote_rename_webs(fn, r, stats, key):
+    """a NEW name that plays the part of a later web of a reference name (the reference rebinds `kwargs`, the refactoring introduced `kept`
+    for the second value): map it onto that web, provided merging it into the name does not fuse it with the other webs of that name
+    (checked by recomputing the webs of the merged function)."""
+    from . import webs
+    work = copy.deepcopy(fn)
+    webs.split(work, fn_scope_locals(work))
+    ref_webs = set(n for o in r['names'] for n in o)
+    loc = set(local_names(work))
+    cur = loc | {n.id for n in ast.walk(work) if isinstance(n, ast.Name)}
+    new = [n for n in fn_scope_locals(work) if n.split(webs.MARK)[0] not in {x.split(webs.MARK)[0] for x in ref_webs}]
+    gone = [n for n in ref_webs if n not in cur and webs.MARK in n and n.split(webs.MARK)[0] in cur]
+    if not new or not gone:
+        return 0
+    refst = {}
+    for d, names in r.get('wstmts', []):
+        refst.setdefault(d, []).append(names)
+    votes = {}
+    for st in statements(work):
+        # evidence = the DEFINING statement: `new = E` is, up to names, the reference statement that starts the missing web
+        if not (isinstance(st, ast.Assign) and len(st.targets) == 1 and isinstance(st.targets[0], ast.Name) and st.targets[0].id in new):
+            continue
+        d, names = stmt_blind(st, loc)
+        for rn in refst.get(d, []):
+            if len(rn) == len(names) and names and names[0] == st.targets[0].id and rn[0] in gone \
+                    and all(x == y or (x in new) for x, y in zip(names[1:], rn[1:])):
+                votes[(names[0], rn[0])] = votes.get((names[0], rn[0]), 0) + 1
+    mapping, used = {}, set()
+    for (a, b), v in sorted(votes.items(), key=lambda kv: (-kv[1], kv[0])):
+        if v > 0 and a not in mapping and b not in used:
+            mapping[a] = b
+            used.add(b)
+    if not mapping:
+        return 0
+
+    def count(f):
+        c = {}
+        for n in ast.walk(f):
+            nm = n.id if isinstance(n, ast.Name) else n.arg if isinstance(n, ast.arg) else None
+            if nm:
+                c.setdefault(nm.split(webs.MARK)[0], set()).add(nm)
+        return {k: len(v) for k, v in c.items()}
+    before = count(work)
+    for n in ast.walk(work):
+        if isinstance(n, ast.Name) and n.id in mapping:
+            n.id = mapping[n.id]
+    webs.merge(work)
+    probe = copy.deepcopy(work)
+    webs.split(probe, fn_scope_locals(probe))
+    after = count(probe)
+    for a, b in mapping.items():
+        base = b.split(webs.MARK)[0]
+        if after.get(base, 0) != before.get(base, 0) + sum(1 for x in mapping.values() if x.split(webs.MARK)[0] == base):
+            return 0          # merging would fuse two values under one name: not a renaming
+    fn.body, fn.args = work.body, work.args
+    if stats is not None:
+        stats.append((key, 'renamed onto later webs %s' % sorted((a, b.replace(webs.MARK, '#')) for a, b in mapping.items())))
+    return len(mapping)
 
 
 def _as_ifexp(s, nxt):
@@ -1283,6 +1344,7 @@ def normalise_repo(trees, use_reference=True, stats=None):
                 if not _settle(fn, r, stats, key):
                     reshape_conditionals(fn, r, stats, key)
                     vote_rename(fn, r, stats, key)
+                    vote_rename_webs(fn, r, stats, key)
                     k = inline_new_temps(fn, r, stats, key)
                     if loops_to_comprehensions(fn, r, stats, key):
                         k += inline_new_temps(fn, r, stats, key)
@@ -1377,9 +1439,11 @@ def make_reference(trees):
             stm = [list(stmt_blind(s, loc)) for s in statements(fn)]
             f2 = copy.deepcopy(fn)
             webs.split(f2, fn_scope_locals(f2))
+            loc2 = set(local_names(f2))
+            wstm = [list(stmt_blind(s, loc2)) for s in statements(f2)]      # the same per def-use web (names carry their web marks)
             h, order = blind(f2)
             comps = sorted({stmt_blind(ast.Expr(value=c), set(local_names(fn)))[0] for c in [ast.ListComp(elt=g.elt, generators=g.generators) if isinstance(g, ast.GeneratorExp) else _canon_call(g) if isinstance(g, ast.Call) else g for g in ast.walk(fn)] if isinstance(c, (ast.ListComp, ast.DictComp, ast.SetComp))})
-            out[key] = dict(blind=h, names=order, stmts=stm, plain=blind(fn)[0], comps=comps, exits=exit_digests(fn))
+            out[key] = dict(blind=h, names=order, stmts=stm, wstmts=wstm, plain=blind(fn)[0], comps=comps, exits=exit_digests(fn))
     mods = {mod: sorted({t.id for n in tree.body if isinstance(n, ast.Assign) for t in n.targets if isinstance(t, ast.Name)}) for mod, tree in trees.items()}
     return dict(functions=out, module_names=mods)
 
